@@ -4,6 +4,7 @@
 import warnings
 from collections import OrderedDict
 
+from jaqalpaq.error import JaqalError
 from .algorithm import fill_in_let, expand_macros, expand_subcircuits
 from .algorithm.walkers import *
 
@@ -20,10 +21,13 @@ def parse_jaqal_output_list(circuit, output):
     :returns: The parsed output.
     :rtype: ExecutionResult
     """
-    circuit = expand_macros(fill_in_let(expand_subcircuits(circuit)))
-    visitor = DiscoverSubcircuits()
-    w = OutputParser(visitor.visit(circuit), output)
-    w.visit(circuit)
+    try:
+        circuit = expand_macros(fill_in_let(expand_subcircuits(circuit)))
+        visitor = DiscoverSubcircuits()
+        w = OutputParser(visitor.visit(circuit), output)
+        w.visit(circuit)
+    except RecursionError:
+        raise JaqalError("Circuit is nested too deeply to be processed") from None
     return ExecutionResult(w.subcircuits, w.res)
 
 
